@@ -206,8 +206,14 @@ def gen_svg():
     if not re.search(r"let fg_color = style\.get_fg_color\(\)\.map\(\|c\| color_name\(FG_PREFIX, c\)\);", wf) or \
        not re.search(r"let underline_color = style\s*\.get_underline_color\(\)\s*\.map\(\|c\| color_name\(UNDERLINE_PREFIX, c\)\);", wf):
         _fn_takes_over("write_fg_span: colour class bindings not recognised")
-    eff_classes = _effect_classes_strict(wf, binds, eff)
+    # a private module-level `const NAME: [..; n] = [ .. ];` table that the body names is DATA of the function: its entries
+    # are read where the body names it (SvgFn reads the same entries: tools/rs2v/emit.py source_table)
+    wf_tables = [m for m in re.finditer(r"(?m)^const (\w+)\s*:\s*\[[^;]*;\s*\d+\s*\]\s*=\s*\[(.*?)\];", src, re.S)
+                 if re.search(r"\b%s\b" % re.escape(m.group(1)), wf)]
+    eff_classes = _effect_classes_strict(wf, binds, eff) if not wf_tables else None
     if eff_classes is None:
+        for m in wf_tables:
+            wf = re.sub(r"\b%s\b" % re.escape(m.group(1)), lambda _m, t=m.group(2): "[" + t + "]", wf)
         # the pushes are spelled another way (a helper that pushes, a table + loop, ..): the DATA is still read off the
         # text -- the constants `anstyle::Effects::X` and the plain class-name literals must alternate, which pairs them --
         # and what the function does with them is SvgFn's translation, proved against this very table (Proofs/SvgGen.v
